@@ -43,6 +43,7 @@ CONSTANTS WSel,       \* row of the weight table below
                       \* future); with "same" also votes of ANOTHER index labelled msgSame (the handler judged against a context the
                       \* voter has already left or not yet reached, or a cached vote released late) -- the voter drops those
           KSet,       \* vote kinds the peers send (a subset of K3, to focus a generation run)
+          GVFocus,    \* mode GV prints: "recv" = every state a delivered vote produced; "commit" = every state an announced commit produced
           Ring,       \* params.MaxVoteCacheCount (4): the voter keeps the tallies of the last Ring (round, index) contexts; the
                       \* oldest tally object is cleared and reused for a new context (votes_mgr.go NewWrapper :377)
           MaxLost,    \* number of such mislabelled deliveries per behaviour
@@ -72,10 +73,10 @@ VARIABLES v,       \* the voter: i, step, pc, cd, cm, over, wr, out
           df,      \* [index][kind][peer] -> the FIRST block delivered with a valid credential (or nil): discriminator only
           ownv,    \* observable: own votes <<index, kind, block>>
           flags,   \* property layer: failed clauses <<clause, discriminator>>
-          nmsg, nlost, hist
-vars == <<v, dl, dln, df, ownv, flags, nmsg, nlost, hist>>
-View == <<v, dl, dln, df, ownv, flags, nmsg, nlost>>
-ViewV == <<v, dl, dln, df, ownv, flags, nlost>>     \* mode GV: a delivery that changes nothing is not a new state
+          nmsg, nlost, justc, hist
+vars == <<v, dl, dln, df, ownv, flags, nmsg, nlost, justc, hist>>
+View == <<v, dl, dln, df, ownv, flags, nmsg, nlost, justc>>
+ViewV == <<v, dl, dln, df, ownv, flags, nlost, justc>>     \* mode GV: a delivery that changes nothing is not a new state
 
 Sum(S) == LET RECURSIVE F(_) F(X) == IF X = {} THEN 0 ELSE LET x == CHOOSE y \in X : TRUE IN Wt(x) + F(X \ {x}) IN F(S)
 
@@ -196,6 +197,7 @@ Tick(rec) == /\ (Mode = "G" => Len(hist) < MaxOps)
 
 ApplyF(x, d, dn, f) == LET c == Check(x.out, d, dn, AsSets(f), [o |-> ownv, f |-> flags]) IN
                    /\ v' = [x EXCEPT !.out = <<>>] /\ dl' = d /\ dln' = dn /\ df' = f /\ ownv' = c.o /\ flags' = c.f
+                   /\ justc' = (\E n \in DOMAIN x.out : x.out[n].t = "C")      \* the event announced a commit
 Apply(x, d, dn) == ApplyF(x, d, dn, df)
 
 Step2 == \E best \in Blocks :
@@ -223,7 +225,7 @@ Init == /\ v = [i |-> 1, step |-> 0, pc |-> FALSE, cd |-> FALSE, cm |-> FALSE, o
                 wr |-> [ii \in 1..MaxI |-> EmptyWrapper], cache |-> [ii \in 1..MaxI |-> <<>>], out |-> <<>>]
         /\ dl = [ii \in 1..MaxI |-> [k \in K3 |-> [s \in Peers |-> {}]]] /\ dln = dl
         /\ df = [ii \in 1..MaxI |-> [k \in K3 |-> [s \in Peers |-> Nil]]]
-        /\ ownv = {} /\ flags = {} /\ nmsg = 0 /\ nlost = 0
+        /\ ownv = {} /\ flags = {} /\ nmsg = 0 /\ nlost = 0 /\ justc = FALSE
         /\ hist = <<[op |-> "Cfg", cert |-> CertRound, w |-> WSel]>>
 Next == Step2 \/ Step4 \/ NextIdx \/ Deliver
 Spec == Init /\ [][Next]_vars
@@ -239,5 +241,5 @@ CommitVerifies                  == NoFlag("CommitVerifies")
 Leaf == (Mode = "G" /\ Len(hist) >= MaxOps) => PrintT("@@J " \o ToJson([kind |-> "B", h |-> hist]))
 \* Mode "GV" (used as an INVARIANT with VIEW View: evaluated once per distinct state): one shortest behaviour into every
 \* distinct design state that a delivered vote has just produced
-LeafV == (Mode = "GV" /\ hist[Len(hist)].op = "Recv") => PrintT("@@J " \o ToJson([kind |-> "B", h |-> hist]))
+LeafV == (Mode = "GV" /\ (IF GVFocus = "commit" THEN justc ELSE hist[Len(hist)].op = "Recv")) => PrintT("@@J " \o ToJson([kind |-> "B", h |-> hist]))
 =============================================================================
